@@ -50,19 +50,23 @@ GInitTok == [x \in {GInitSeq[j] : j \in 1..Len(GInitSeq)} |-> "i:" \o x]
 VARIABLES hist,      \* the calls so far: [op, n, m, rep, comp, enc]
           gkind,     \* sim mode: the kind chosen for the next call ("" = none yet)
           gres,      \* result class the model of the code predicts for each call of hist
+          gsr,       \* what read_file(subject of the call) inside the session returns after each call ("-": n/a)
           gpreds,    \* what the model of the code predicts a fresh open reads after each close so far
           gdone
-gvars == <<hslots, hblocks, hcursor, ddisk, wopen, wdirty, vlf, stale, staleMap, pc, opr, pidx, pcnt, hsnap, lastres, devs, vcalls, hist, gkind, gres, gpreds, gdone>>
+gvars == <<hslots, hblocks, hcursor, ddisk, wopen, wdirty, vlf, stale, staleMap, pc, opr, pidx, pcnt, hsnap, lastres, devs, vcalls, hist, gkind, gres, gsr, gpreds, gdone>>
 
-OpRec(o, n, m, rep, comp, enc) == [op |-> o, n |-> n, m |-> m, rep |-> rep, comp |-> comp, enc |-> enc]
+OpRec(o, n, m, rep, comp, enc) == [op |-> o, n |-> n, m |-> m, rep |-> rep, comp |-> comp, enc |-> enc, big |-> FALSE]
+\* sim mode: an add may store a content larger than one sector
+BigChoice == IF GMode = "sim" THEN BOOLEAN ELSE {FALSE}
 Tok(k) == "o" \o ToString(k)
 CompOf(k, n) == IF (k + Len(n)) % 2 = 0 THEN "zlib" ELSE "none"
 Encs == CASE GEnc = 0 -> {"none"} [] GEnc = 1 -> {"none", "enc"} [] OTHER -> {"none", "enc", "fix"}
 Comps(k, n) == IF GMode = "sim" THEN {"zlib", "none"} ELSE {CompOf(k, n)}
 K == Len(hist) + 1
 
-GAdd    == \E n \in OpNames, rep \in BOOLEAN, enc \in Encs : \E comp \in Comps(K, n) :
-              BeginAdd(n, Tok(K), rep, enc, comp) /\ hist' = Append(hist, OpRec("add", n, "", rep, comp, enc))
+GAdd    == \E n \in OpNames, rep \in BOOLEAN, enc \in Encs, big \in BigChoice : \E comp \in Comps(K, n) :
+              BeginAdd(n, Tok(K), rep, enc, comp, big)
+              /\ hist' = Append(hist, [OpRec("add", n, "", rep, comp, enc) EXCEPT !.big = big])
 GRemove == \E n \in OpNames : BeginRemove(n) /\ hist' = Append(hist, OpRec("remove", n, "", TRUE, "none", "none"))
 GRename == \E a \in OpNames, b \in OpNames : BeginRename(a, b) /\ hist' = Append(hist, OpRec("rename", a, b, TRUE, "none", "none"))
 GFlush  == (FlushClean \/ FlushRelocateV12 \/ FlushV3Broken) /\ hist' = Append(hist, OpRec("flush", "", "", TRUE, "none", "none"))
@@ -79,24 +83,28 @@ More == Len(hist) < GMaxLen /\ ~gdone /\ pc = "idle"
 Kinds == IF GFill THEN {"add1", "add2", "add3", "add4", "add5", "add6", "add7", "remove", "flush", "reopen"}
          ELSE {"add1", "add2", "add3", "add4", "remove", "rename", "compact", "flush", "reopen", "reopen2"}
 PickKind == /\ GMode = "sim" /\ More /\ wopen /\ gkind = ""
-            /\ gkind' \in Kinds /\ UNCHANGED <<hslots, hblocks, hcursor, ddisk, wopen, wdirty, vlf, stale, staleMap, pc, opr, pidx, pcnt, hsnap, lastres, devs, vcalls, hist, gres, gpreds, gdone>>
+            /\ gkind' \in Kinds /\ UNCHANGED <<hslots, hblocks, hcursor, ddisk, wopen, wdirty, vlf, stale, staleMap, pc, opr, pidx, pcnt, hsnap, lastres, devs, vcalls, hist, gres, gsr, gpreds, gdone>>
 Allowed(kd) == GMode = "bfs" \/ gkind \in kd
 Call == /\ More /\ (GMode = "bfs" \/ gkind # "") /\ gkind' = "" /\ UNCHANGED gdone
-        /\ \/ Allowed({"add1", "add2", "add3", "add4", "add5", "add6", "add7"}) /\ GAdd /\ UNCHANGED <<gres, gpreds>>
-           \/ Allowed({"remove"}) /\ GRemove /\ UNCHANGED <<gres, gpreds>>
-           \/ Allowed({"rename"}) /\ GRename /\ UNCHANGED <<gres, gpreds>>
-           \/ Allowed({"flush"}) /\ GFlush /\ gres' = Append(gres, "ok") /\ UNCHANGED gpreds
-           \/ Allowed({"compact"}) /\ GCompact /\ gres' = Append(gres, "ok") /\ UNCHANGED gpreds
-           \/ Allowed({"reopen", "reopen2"}) /\ wopen /\ GClose /\ UNCHANGED gres
+        /\ \/ Allowed({"add1", "add2", "add3", "add4", "add5", "add6", "add7"}) /\ GAdd /\ UNCHANGED <<gres, gsr, gpreds>>
+           \/ Allowed({"remove"}) /\ GRemove /\ UNCHANGED <<gres, gsr, gpreds>>
+           \/ Allowed({"rename"}) /\ GRename /\ UNCHANGED <<gres, gsr, gpreds>>
+           \/ Allowed({"flush"}) /\ GFlush /\ gres' = Append(gres, "ok") /\ gsr' = Append(gsr, "-") /\ UNCHANGED gpreds
+           \/ Allowed({"compact"}) /\ GCompact /\ gres' = Append(gres, "ok") /\ gsr' = Append(gsr, "-") /\ UNCHANGED gpreds
+           \/ Allowed({"reopen", "reopen2"}) /\ wopen /\ GClose /\ UNCHANGED <<gres, gsr>>
 \* after a close the only thing to do is to open again (or to stop); the first open is implicit
 Reopen == /\ ~gdone /\ pc = "idle" /\ ~wopen /\ ddisk.ok /\ gkind # "final" /\ (vcalls = 0 \/ Len(hist) < GMaxLen)
-          /\ GReopen /\ gres' = (IF vcalls = 0 THEN gres ELSE Append(gres, "ok")) /\ UNCHANGED <<gkind, gpreds, gdone>>
+          /\ GReopen /\ gres' = (IF vcalls = 0 THEN gres ELSE Append(gres, "ok"))
+          /\ gsr' = (IF vcalls = 0 THEN gsr ELSE Append(gsr, "-")) /\ UNCHANGED <<gkind, gpreds, gdone>>
 Step == /\ ~gdone /\ ~Hung /\ CodeSteps
         /\ gres' = (IF pc' = "idle" THEN Append(gres, lastres') ELSE gres)
+        \* the subject of the call (opr is cleared by the completing step: bind the name first)
+        /\ \E nm \in GUNames : /\ nm = (IF opr.k = "rename" THEN opr.m ELSE opr.n)
+                               /\ gsr' = (IF pc' = "idle" THEN Append(gsr, SessionReadStale(nm)') ELSE gsr)
         /\ UNCHANGED <<hist, gkind, gpreds, gdone>>
 \* the history is complete: the harness drops the archive (flush on drop) ...
 FinalClose == /\ ~gdone /\ pc = "idle" /\ wopen /\ gkind = "" /\ Len(hist) >= GMinLen /\ (GMode = "bfs" \/ Len(hist) >= GMaxLen)
-              /\ GClose /\ gkind' = "final" /\ UNCHANGED <<gres, gdone>>
+              /\ GClose /\ gkind' = "final" /\ UNCHANGED <<gres, gsr, gdone>>
 
 \* one prediction per close (every reopen, then the final one); a spinning call ends the history
 Preds == IF Hung THEN Append(gpreds, [kind |-> "hang"]) ELSE gpreds
@@ -104,7 +112,7 @@ CaseRec == [cls |-> GCls, ver |-> GVer, lf |-> GLF, at |-> GAT, slack |-> IF GVe
             names |-> [j \in 1..GNames |-> [n |-> AllNames[j], home |-> HomeSeq[j]]], padhome |-> PadHome,
             init |-> [j \in 1..GInit |-> AllNames[j]], ops |-> hist,
             sub |-> IF GSub /\ GNames >= 2 THEN <<[n |-> "b", inside |-> "a"]>> ELSE <<>>, devs |-> devs, preds |-> Preds,
-            pres |-> IF Hung THEN Append(gres, "hang") ELSE gres]
+            pres |-> IF Hung THEN Append(gres, "hang") ELSE gres, psr |-> gsr]
 \* ... and the case is printed
 Emit == /\ ~gdone
         /\ \/ gkind = "final" /\ ~wopen
@@ -112,8 +120,8 @@ Emit == /\ ~gdone
            \/ pc = "idle" /\ ~wopen /\ ~ddisk.ok /\ Len(hist) >= 1
         /\ PrintT("CASE " \o ToJson(CaseRec))
         /\ gdone' = TRUE
-        /\ UNCHANGED <<hslots, hblocks, hcursor, ddisk, wopen, wdirty, vlf, stale, staleMap, pc, opr, pidx, pcnt, hsnap, lastres, devs, vcalls, hist, gkind, gres, gpreds>>
+        /\ UNCHANGED <<hslots, hblocks, hcursor, ddisk, wopen, wdirty, vlf, stale, staleMap, pc, opr, pidx, pcnt, hsnap, lastres, devs, vcalls, hist, gkind, gres, gsr, gpreds>>
 
-GInitState == HInit /\ hist = <<>> /\ gkind = "" /\ gres = <<>> /\ gpreds = <<>> /\ gdone = FALSE
+GInitState == HInit /\ hist = <<>> /\ gkind = "" /\ gres = <<>> /\ gsr = <<>> /\ gpreds = <<>> /\ gdone = FALSE
 GNext == PickKind \/ Call \/ Reopen \/ Step \/ FinalClose \/ Emit
 =============================================================================
